@@ -16,7 +16,6 @@ import exppoly
 import lattice_cert as lc
 from checks.c16 import t_add, t_mul, t_scale, t_one, t_zero, t_is_zero
 
-KNOWN_VIA_C16 = "invariant_ideal:false-invariant-from:compute_basis_rational:non-integer-nullspace-truncated"
 NMAX = 40
 
 
